@@ -3,7 +3,7 @@
     (run against the real navigator by props/C03/run.py).  No proofs here. *)
 From Coq Require Import List Bool Arith.
 From Celer Require Import Base.Num Base.Vec3 C12.Solver C12.Surfaces C12.Transforms
-  C03.LogicWalk C03.NavModel C03.UnitWalk.
+  C03.LogicWalk C03.NavModel C03.UnitWalk C03.UnitWalkBg.
 Import ListNotations.
 Local Open Scope num_scope.
 
@@ -23,14 +23,17 @@ Section Abs.
     sort_crossings (calc_crossings u pos dir None (fun _ => true) (seq 0 (length (u_surfs u))) 0).
 
   (** find_next_step ; move_to_boundary ; cross_boundary  repeated inside unit 0, from a
-      fresh initialisation: (volume entered, distance from the start) *)
-  Definition unit_trace (g : geometry T) (pos dir : vec3 T) : list (option nat * T) * list T :=
+      fresh initialisation: (volume entered, distance from the start); background volumes
+      through [nav_trace_bg] (bumped sense oracle) *)
+  Definition unit_trace (tol : tolerance T) (g : geometry T) (pos dir : vec3 T)
+    : list (option nat * T) * list T :=
     let u := get_unit g 0 in
     let xs := unit_crossings u pos dir in
     (match unit_initialize u pos with
      | Some cur =>
-         nav_trace (S (length xs)) (abs_unit u) (u_background u)
-                   (fun t => orc u (axpy t dir pos)) xs n0 cur None
+         nav_trace_bg (S (length xs)) (abs_unit u) (u_background u)
+                      (fun t => orc u (axpy t dir pos))
+                      (fun t => orc u (axpy (t + bump_dist tol pos) dir pos)) xs n0 cur None
      | None => []
      end, map snd xs).
 End Abs.
